@@ -3,13 +3,102 @@ Pure text; which obligations run is decided by the `props=` field of each obliga
 
 FIXED_TRUSTED = [
     "rustc (Kani's pinned nightly) and MIR semantics",
-    "Kani 0.68 MIR->GOTO translation and its models of std/alloc",
-    "CBMC 6.11 symbolic execution + CaDiCaL (SAT)",
+    "Kani 0.68 MIR->GOTO translation and its models of std/alloc (malloc/realloc/free, memcmp)",
+    "CBMC 6.11 symbolic execution (--max-field-sensitivity-array-size raised to keep Vec<Insn> contents precise) + CaDiCaL (SAT)",
 ]
 VERUS_TRUSTED = ["Verus 0.2026.09.13 VC generation + Z3", "vstd specifications of Vec/slice/Option"]
 
+_COMPOSE = ("The obligations are per-function contracts; that they compose into the whole-pattern statement is an "
+            "induction over the execution that is argued in DESIGN.md, not machine-checked. ")
+
 PROPS = {
-    # id: (level, explanation of coverage / what remains undecided)
+    "C01": ("other", "Component contracts under the ES step specification (crate::matchers::__verif::spec, written from "
+            "ECMA-262 22.2.2): UTF-8 decoding fwd/bwd = std for every char pair; every leaf matcher and every "
+            "single-instruction program [X, Goal] of the backtracker returns what the ES step prescribes for symbolic "
+            "operands on every 2-char haystack; the loop decision table = RepeatMatcher for all integers; undo "
+            "discipline per instruction; backtrack records; single-char loops; search driver with the interpreter "
+            "replaced by an oracle. " + _COMPOSE + "Not decided: that the parser/optimizer/emitter produce the program "
+            "ES prescribes for a pattern (only local contracts of those stages, see C03/C12/C16)."),
+    "C02": ("other", "Both engines are checked against the SAME specification: the loop decision table "
+            "(es_loop_step) for classicalbacktrack::run_loop and pikevm::run_loop, the same per-instruction step "
+            "spec for MatchAttempter::try_at_pos micro-programs and for pikevm::try_match_state, and the undo "
+            "discipline (every State write of an instruction is covered by an undo record; replaying the records "
+            "restores State) which is what makes a backtracker resumption see the state a PikeVM clone sees. "
+            + _COMPOSE),
+    "C03": ("other", "Local rewrite contracts of the optimizer/literal passes on bounded IR shapes (each pass is an "
+            "identity under its side condition), CodePointSet::inverted = complement (Verus, unbounded), "
+            "Char -> ByteSequence = UTF-8 of the char for every char, and the run-time contract the promoted "
+            "1-char loops rely on (a loop with min == 0 never fails for any body operand). Not decided: interaction "
+            "of passes across the fixpoint and IR shapes outside the bounds; no IR-level semantics is defined."),
+    "C04": ("other", "Byte-level lemmas are complete (lead byte = std for every char; monotone; "
+            "add_utf8_first_bytes_to_bitmap covers every code point of every interval; bitmap algebra; find_in = "
+            "first admitted index); the driver is proved to attempt only admitted offsets, in increasing order, "
+            "and to return what the exhaustive ordered scan returns whenever every successful offset is admitted "
+            "(oracle-stubbed interpreter, haystack <= 4 bytes). The start-predicate analysis is checked on bounded "
+            "IR. Assumed (needs IR semantics): a successful attempt starts with a byte of FIRST(pattern)."),
+    "C05": ("other", "Local progress only: an iteration past min that did not advance is rejected and iters strictly "
+            "increases on enter (run_loop, both engines, all integers); loop data is restored on backtracking so the "
+            "counter cannot be re-armed (the root cause of the known hang, fixed); Loop1Char records strictly "
+            "approach min; the backtrack stack returns to its backstop. GLOBAL TERMINATION IS NOT PROVED: no "
+            "decreases measure for the dispatch loop is within reach of either tool."),
+    "C06": ("other", "Every pointer/unchecked access of the decoders is in bounds for every char pair at every "
+            "boundary (CBMC pointer checks on the real RefPosition code, and under index-positions/prohibit-unsafe); "
+            "all interpreter micro-program obligations run with Kani's memory-safety, overflow and "
+            "unreachable_unchecked checks on; successful_match reports start <= end <= len on boundaries. Not "
+            "decided: in-range ip/group/loop ids for arbitrary programs (follows from emitter well-formedness, "
+            "checked on bounded IR only)."),
+    "C07": ("other", "Panic-freedom of parser pieces reachable by Kani (numeric literals saturate, escapes total for "
+            "every next code point and mode, bounded class/term parsing) and of the set operations. Stack "
+            "exhaustion and hashbrown-based group pre-scan are outside both tools' models."),
+    "C09": ("other", "Matches::new/next and both next_match drivers equal the unfold specification written from the "
+            "property statement, with the interpreter replaced by an arbitrary deterministic oracle meeting "
+            "try_at_pos's contract; haystacks of 3 chars incl. a multi-byte one; every start offset incl. len+1; "
+            "6 calls of next(). Independent of the pattern; bounded in the haystack."),
+    "C10": ("other", "fold/uppercase are in range and idempotent for every code point; legacy uppercase(c) is compared "
+            "with the ES legacy Canonicalize computed from std's Unicode tables for every char; the i+u word "
+            "characters; fold_equals/backref_icase for every canonicalisation function (uninterpreted). "
+            "UNCHECKED: the content of the simple-case-folding table vs Unicode 17 (no independent source here)."),
+    "C11": ("other", "Tables with an in-sandbox oracle (std's Unicode data) are compared for every char; every interval "
+            "table is checked sorted/disjoint/non-abutting. All other tables (Script, Script_Extensions, most "
+            "binary properties, strings) have no oracle here and are unchecked."),
+    "C12": ("other", "CodePointSet algebra against a set-of-code-points view: inverted/intersect unbounded (Verus, on the "
+            "mechanically extracted real functions), add/add_one/remove/contains on vectors of concrete length with "
+            "symbolic contents (Kani), bracket matching = membership XOR invert. Class-set parsing beyond bounded "
+            "inputs is not decided."),
+    "C13": ("other", "ASCII char properties = UTF-8 ones on every ASCII byte; AsciiInput refines Utf8Input op by op on "
+            "ASCII buffers; the ASCII-input interpreter agrees with the UTF-8 one per instruction kind; u32->u8 "
+            "narrowing never aborts a loop (min==0 never fails). Equality of whole searches then follows by "
+            "parametricity of the shared generic interpreter (argued, not checked)."),
+    "C14": ("other", "Surrogate pairing fwd/bwd for every (u16,u16), agreement with char::decode_utf16, no panic on "
+            "arbitrary units (feature utf16). Whole-search agreement is not decided."),
+    "C15": ("other", "Each cfg!(prohibit-unsafe)/index-positions twin satisfies the same contract as the default build "
+            "(decoders, iat/mat, ByteBitmap::find_in, try_backtrack). hashbrown vs std HashMap assumed."),
+    "C16": ("other", "Accessor identities for every Match with <= 3 groups over a small name alphabet; successful_match "
+            "builds one slot per group from the group data; capture instructions write exactly their group."),
+    "C17": ("other", "expand_replacement/replace* against the template specification on bounded templates/haystacks."),
+    "C18": ("other", "escape's per-character table for every char and the parser's treatment of \\c for the syntax "
+            "characters; end-to-end 'matches exactly s' needs C01."),
+    "C19": ("proof", "Type-level frame condition: Regex, Match, Error are Send + Sync + DeepFrozen (no UnsafeCell "
+            "reachable, dependencies included) - a &Regex cannot be written through, so no interleaving or earlier "
+            "query can change a result; plus unsafe-site and global-state inventory."),
+    "C20": ("other", "Single-step inductive tiling contract of RegexSearcher::next/next_back with oracle-stubbed matcher."),
+}
+
+ASSUMPTIONS = {
+    "C01": ["composition of per-instruction contracts into whole-program semantics (paper induction)",
+            "decoder locality: a decoder call reads at most 4 bytes on either side of pos, so two adjacent chars "
+            "exhibit every behaviour",
+            "ByteSet/ByteSeq operands are whole ASCII chars / whole UTF-8 sequences (established by literal.rs, "
+            "checked on bounded IR under C03)"],
+    "C02": ["composition over whole programs (paper induction, DESIGN.md 5.C02)",
+            "E3 arm-level obligations use spec_backtrack as the contract of try_backtrack; the real try_backtrack is "
+            "checked against it by e4_bt_records_* (assume-guarantee)"],
+    "C04": ["a successful attempt at p starts with a byte of FIRST(pattern) (IR semantics, not defined here)",
+            "memchr/memmem meet their documented contracts (SIMD, outside Kani)"],
+    "C05": ["termination itself is not proved"],
+    "C09": ["try_at_pos contract assumed by the oracle: start <= end <= len, end on a boundary, deterministic, State "
+            "clean on None (E2/E3/E9 establish these per instruction)"],
+    "C10": ["content of FOLDS vs Unicode 17 CaseFolding.txt is unchecked"],
 }
 
 
